@@ -77,6 +77,12 @@ impl Ctx {
             .and_then(|s| serde_json::from_str::<Value>(&s).ok())
             .and_then(|v| serde_json::from_value(v["findings"].clone()).ok())
             .unwrap_or_default();
+        // experiments only: treat the listed findings as not recorded (VCHECK_IGNORE_KNOWN=id,id | all)
+        let ignore = std::env::var("VCHECK_IGNORE_KNOWN").unwrap_or_default();
+        let known: Vec<KnownFinding> = known
+            .into_iter()
+            .filter(|k| !(ignore == "all" || ignore.split(',').any(|i| i == k.id)))
+            .collect();
         let lanes = std::env::var("VCHECK_LANES").ok().and_then(|s| s.parse().ok()).unwrap_or(8);
         Ctx {
             prop: prop.to_string(),
